@@ -101,7 +101,7 @@ func valName(v interface{}) string {
 
 type foreignOwner struct{ m map[interface{}]interface{} }
 
-func (f *foreignOwner) SetProperty(k, v interface{}) error { f.m[k] = v; return nil }
+func (f *foreignOwner) SetProperty(k, v interface{}) error    { f.m[k] = v; return nil }
 func (f *foreignOwner) GetProperty(k interface{}) interface{} { return f.m[k] }
 
 // owner resolves a reference record to a live PropertyOwner fetched through
